@@ -63,6 +63,9 @@ def digitsVal (ds : List Char) : Nat := ds.foldl (fun a c => a * 10 + (c.toNat -
 def pow10 (e : Int) : Rat :=
   if 0 ≤ e then ((10 ^ e.toNat : Nat) : Rat) else 1 / ((10 ^ (-e).toNat : Nat) : Rat)
 
+/-- longest prefix of digits and the rest -/
+def spanD (l : List Char) : List Char × List Char := (l.takeWhile isDigit, l.dropWhile isDigit)
+
 def takeSign : List Char → List Char × List Char
   | '+' :: r => (['+'], r)
   | '-' :: r => (['-'], r)
@@ -74,7 +77,7 @@ def lexExp (acc : List Char) (r : List Char) : List Char × List Char :=
   | e :: r' =>
     if isExpChar e then
       let sg := takeSign r'
-      let ds := sg.2.span isDigit
+      let ds := spanD sg.2
       if ds.1.isEmpty then (acc, r) else (acc ++ e :: sg.1 ++ ds.1, ds.2)
     else (acc, r)
   | [] => (acc, [])
@@ -83,10 +86,10 @@ def lexExp (acc : List Char) (r : List Char) : List Char × List Char :=
     `sign? (digit+ ("." digit*)? | "." digit+) (("e"|"E") sign? digit+)?` → (lexeme, rest) -/
 def lexNumber (s : List Char) : Option (List Char × List Char) :=
   let sg := takeSign s
-  let ip := sg.2.span isDigit
+  let ip := spanD sg.2
   match ip.2 with
   | '.' :: r =>
-    let fp := r.span isDigit
+    let fp := spanD r
     if ip.1.isEmpty && fp.1.isEmpty then none
     else some (lexExp (sg.1 ++ ip.1 ++ '.' :: fp.1) fp.2)
   | r1 => if ip.1.isEmpty then none else some (lexExp (sg.1 ++ ip.1) r1)
@@ -95,15 +98,15 @@ def lexNumber (s : List Char) : Option (List Char × List Char) :=
 def numVal (s : List Char) : Rat :=
   let sg := takeSign s
   let neg := sg.1 == ['-']
-  let ip := sg.2.span isDigit
+  let ip := spanD sg.2
   let (fp, r2) : List Char × List Char := match ip.2 with
-    | '.' :: r => r.span isDigit
+    | '.' :: r => spanD r
     | r1 => ([], r1)
   let ex : Int := match r2 with
     | e :: r' =>
       if isExpChar e then
         let sg2 := takeSign r'
-        let ds := sg2.2.span isDigit
+        let ds := spanD sg2.2
         if sg2.1 == ['-'] then -(digitsVal ds.1 : Int) else (digitsVal ds.1 : Int)
       else 0
     | [] => 0
